@@ -63,6 +63,10 @@ fn main() {
                     laws::run(&ctx, plans, 100_000);
                     ctx.finish("cell = (family, float type, parameter tuple) sampled n times; every integer with pmf >= 1e-4 is its own bin, rest grouped at quantile edges; exhaustive small sets (Binomial n<=30 x p-grid, Hypergeometric N<=40), switch grids, random tuples; non-trivial = >= 3 bins with expected count >= 1000 or a documented constant; distinct = distinct cell keys", &ASSUME_LAW, false)
                 }
+                "C03" => {
+                    streams::run_c03(&ctx);
+                    ctx.finish("case = (cell in E, base seed, one lattice word forced at stream position 0..7 [+ up to two region words]) -> one sample() call, checked for panic / support / NaN / undocumented infinity; plus the exhaustive sweep of all 2^24 high-bit patterns of the word at each consumed position for f32 samplers; non-trivial = the forced word was actually consumed by the call; cases are pairwise distinct by enumeration", &["the 64-bit-word-per-call stream model of DESIGN 3.1 (next_u32 = high half)", "E as fixed in DESIGN 4"], false)
+                }
                 _ => {
                     eprintln!("unknown property {id}");
                     2
